@@ -121,17 +121,21 @@ InstrStep(e, s0) ==
       /\ lenient' = (free \/ op = 16)
       /\ IF free \/ op = 16
          THEN \* halt bug followed by the CB prefix or another HALT, or EI directly followed by HALT: not covered by the statement
-              st' = st
+              /\ st' = st
+              \* ... except that the doubled byte costs exactly one PC increment: after HALT (bug); CB xx the PC is one past the
+              \* CB byte whichever way the pair is decoded (CB CB on hardware, CB xx here), and the stack pointer is untouched
+              /\ (s0.haltBug /\ op = 203 /\ Judged(e) => Post(e).pc = W16(pre0.pc + 1) /\ Post(e).sp = pre0.sp)
          ELSE /\ (Judged(e) => (Post(e).pc = res.r.pc /\ Post(e).sp = res.r.sp))       \* control flow of the instruction itself
               /\ (s0.haltBug /\ Judged(e) => res.r = Post(e))                        \* the doubly-read byte shows in the registers
               /\ (Judged(e) /\ Mode = "C01" => /\ res.r = Post(e) /\ res.r.f % 16 = 0
-                                               /\ {<<a[2], a[3], a[4]>> : a \in res.acc} = {<<a[2], a[3], a[4]>> : a \in DataAcc(e, pre, op)})
+                                               /\ {<<a[2], a[3], a[4]>> : a \in res.acc} = {<<a[2], a[3], a[4]>> : a \in DataAcc(e, pre0, op)})
               /\ (Judged(e) /\ Mode = "C02" => N(e) = res.n)
-              /\ (Judged(e) /\ Mode = "C03" => {<<a[1], a[2], a[3]>> : a \in res.acc} = {<<a[1], a[2], a[3]>> : a \in DataAcc(e, pre, op)})
+              /\ (Judged(e) /\ Mode = "C03" => {<<a[1], a[2], a[3]>> : a \in res.acc} = {<<a[1], a[2], a[3]>> : a \in DataAcc(e, pre0, op)})
               /\ st' = Fold(s1, e, 1, N(e))
               /\ Observed(e, st')
 
 Next == /\ l <= Len(Scens[sc].ev) /\ l' = l + 1 /\ UNCHANGED sc
+        /\ N(Ev) # 99                                    \* the harness writes 99 cycles for a unit in which the emulator panicked
         /\ IF lenient THEN UNCHANGED <<st, lenient>> ELSE
            LET e == Ev
                s0 == [st EXCEPT !.iflg = @ \cup RaisedAt(e, 0)]
